@@ -68,3 +68,4 @@ CHECK["assumptions"] = ENUMX_ASSUME + [
     "the coefficients actually drawn are a sample and are not enumerated",
     "map iteration order inside the tbls functions is the stock random one (the relations are order independent)",
 ]
+CHECK["claim"] += ' Fifth session: call histories in which the caller hands every message over in ONE buffer of its own that it overwrites between the calls (pairs-reusedbuffer: every ordered pair of queries over every related-message pair).'
